@@ -577,4 +577,68 @@ theorem C16_code_reference_get (tbl : List (String × ElData)) (asDict : ElData 
       simp only [Option.getD_some]
       cases lookupLast e prop <;> cases lookupLast (asDict b) prop <;> rfl
 
+/-! ## Code tie: `ConfigParser._parse_params_section` (behind `.pair`, `.eam_embed`, `.eam_density`, `.eam_density_fs`, `parse_pair_like`), regenerated -/
+namespace ParseTie
+open Atsim.Gen.Logic
+
+/-- map with the first error winning -/
+def mapE {ε α β : Type} (f : α → Except ε β) : List α → Except ε (List β)
+  | [] => .ok []
+  | x :: xs => match f x with
+    | .error e => .error e
+    | .ok y => match mapE f xs with
+      | .error e => .error e
+      | .ok ys => .ok (y :: ys)
+
+theorem loop_eq (hasSection : IniRec → String → Bool) (sectionKeys : IniRec → String → List String) (getValue : IniRec → String → String → String)
+    (sectionsOf : IniRec → List String) (defaultKeys : IniRec → List String) (isRelevant : String → Bool)
+    (parse : String → String → Except ParseErr ParsedLine) (raw : IniRec) (s : String) (ks : List String) (acc : List ParsedLine) :
+    parse_params_section_loop1 hasSection sectionKeys getValue sectionsOf defaultKeys isRelevant acc parse s raw ks =
+      (match mapE (fun k => parse k (getValue raw s k)) ks with
+       | .error e => .error e
+       | .ok ys => .ok (acc ++ ys)) := by
+  induction ks generalizing acc with
+  | nil => simp [parse_params_section_loop1, mapE]
+  | cons k ks ih =>
+    simp only [parse_params_section_loop1, mapE, andThen]
+    cases parse k (getValue raw s k) with
+    | error e => rfl
+    | ok y =>
+      simp only [ih]
+      cases mapE (fun k => parse k (getValue raw s k)) ks with
+      | error e => rfl
+      | ok ys => simp
+
+end ParseTie
+
+open Atsim.Gen.Logic ParseTie in
+/-- **code tie**: a section that is present - EMPTY or not - gives one parsed tuple per entry, in the section's own order, each from its own key and value (the first line
+that cannot be parsed ends it with that line's error); only a section that is absent is "Configuration file does not contain [X] section".  An empty `[Pair]` section
+of an EAM model is therefore the empty list, not an error (round-8 seed C16_13). -/
+theorem C16_code_parse_params_section (hasSection : IniRec → String → Bool) (sectionKeys : IniRec → String → List String) (getValue : IniRec → String → String → String)
+    (sectionsOf : IniRec → List String) (defaultKeys : IniRec → List String) (isRelevant : String → Bool)
+    (parse : String → String → Except ParseErr ParsedLine) (raw : IniRec) (s : String) :
+    parse_params_section hasSection sectionKeys getValue sectionsOf defaultKeys isRelevant raw s parse =
+      (if hasSection raw s then mapE (fun k => parse k (getValue raw s k)) (sectionKeys raw s) else .error ParseErr.missingSection) := by
+  unfold parse_params_section
+  cases h : hasSection raw s
+  · simp
+  · simp only [if_true, loop_eq, List.nil_append]
+    cases mapE (fun k => parse k (getValue raw s k)) (sectionKeys raw s) <;> rfl
+
+open Atsim.Gen.Logic ParseTie in
+/-- **code tie**: which section and which line parser each property of `ConfigParser` reads: `.pair` the `[Pair]` section with the pair-line parser (through
+`parse_pair_like`, which the ADP factory uses for its two sections), `.eam_embed` `[EAM-Embed]` with the embedding-line parser, `.eam_density` and `.eam_density_fs`
+BOTH `[EAM-Density]`, with the standard and the Finnis-Sinclair line parser - none reads another's section or uses another's parser -/
+theorem C16_code_section_properties (hasSection : IniRec → String → Bool) (sectionKeys : IniRec → String → List String) (getValue : IniRec → String → String → String)
+    (sectionsOf : IniRec → List String) (defaultKeys : IniRec → List String) (isRelevant : String → Bool)
+    (pairLine embedLine densLine fsLine : String → String → Except ParseErr ParsedLine) (raw : IniRec) (s : String) :
+    let P := parse_params_section hasSection sectionKeys getValue sectionsOf defaultKeys isRelevant raw
+    cp_parse_pair_like hasSection sectionKeys getValue sectionsOf defaultKeys isRelevant raw pairLine s = P s pairLine ∧
+    cp_pair hasSection sectionKeys getValue sectionsOf defaultKeys isRelevant raw pairLine = P "Pair" pairLine ∧
+    cp_eam_embed hasSection sectionKeys getValue sectionsOf defaultKeys isRelevant raw embedLine = P "EAM-Embed" embedLine ∧
+    cp_eam_density hasSection sectionKeys getValue sectionsOf defaultKeys isRelevant raw densLine = P "EAM-Density" densLine ∧
+    cp_eam_density_fs hasSection sectionKeys getValue sectionsOf defaultKeys isRelevant raw fsLine = P "EAM-Density" fsLine :=
+  ⟨rfl, rfl, rfl, rfl, rfl⟩
+
 end Atsim.C16
